@@ -777,3 +777,62 @@ package gogen
 //@ requires len(args) >= 1 && forall(i, 0, len(args), args[i] != nil)
 //@ requires forall(i, 0, len(args), forall(j, 0, len(args), imp(cKind(args[i]) != cKind(args[j]), cKind(args[i]) >= 3 && cKind(args[j]) >= 3)))
 //@ ensures imp(len(args) == 2 && isOrderable(args[0]) && isOrderable(args[1]), result == ite(constant.Compare(args[1], token.GTR, args[0]), args[1], args[0]))
+
+// ---------------------------------------------------------------------------
+// C05 — public predicates on basic types (composite / named / generic types are delegated to go/types)
+
+//@ func AssignableConv
+//@ prop C05
+//@ assigns when(pv != nil, pv.Val), when(pv != nil, pv.Type)
+//@ requires pkg != nil && V != nil && T != nil && typeis(V, *types.Basic) && typeis(T, *types.Basic) && pkg.implicitCast == nil
+//@ requires ValidBasic(V) && ValidBasic(T) && OperandWfFor(V, pv)
+//@ ensures result == GoAssignableBasic(V.(*types.Basic).Kind(), T.(*types.Basic).Kind(), pv)
+
+//@ func AssignableTo
+//@ prop C05
+//@ readonly
+//@ requires pkg != nil && V != nil && T != nil && typeis(V, *types.Basic) && typeis(T, *types.Basic) && pkg.implicitCast == nil
+//@ requires ValidBasic(V) && ValidBasic(T)
+//@ ensures result == GoAssignableBasic(V.(*types.Basic).Kind(), T.(*types.Basic).Kind(), nil)
+
+//@ func ConvertibleTo
+//@ prop C05
+//@ readonly
+//@ requires pkg != nil && V != nil && T != nil
+//@ ensures imp(!(V == asI(types.Typ[types.UnsafePointer], types.Type) && typeis(T, *types.Pointer)), result == types.ConvertibleTo(V, T))
+//@ ensures imp(V == asI(types.Typ[types.UnsafePointer], types.Type) && typeis(T, *types.Pointer), result)
+
+//@ func Default
+//@ prop C05 C03
+//@ requires pkg != nil && t != nil && typeis(t, *types.Basic)
+//@ ensures result == types.Default(t)
+
+//@ func DefaultConv
+//@ prop C05 C03
+//@ requires pkg != nil && t != nil && typeis(t, *types.Basic)
+//@ ensures result == types.Default(t)
+
+//@ func getUnderlying
+//@ prop C05
+//@ readonly
+//@ requires pkg != nil && typ != nil
+//@ ensures result == typ.Underlying() && result != nil
+
+//@ func untypedComparable
+//@ prop C05
+//@ readonly
+//@ requires pkg != nil && v != nil && varg != nil && t != nil && typeis(t, *types.Basic) && v.Kind() >= 19 && ValidBasic(t) && v.Kind() != 0
+//@ requires OperandWfFor(asI(v, types.Type), varg) && imp(v.Kind() == 22, varg.CVal != nil)
+//@ loop 0 invariant t == entry(t)
+//@ ensures imp(v.Kind() != 25 && t.(*types.Basic).Kind() < 19, result == GoAssignableBasic(v.Kind(), t.(*types.Basic).Kind(), varg))
+//@ ensures imp(v.Kind() != 25 && t.(*types.Basic).Kind() >= 19, result == BothUntypedComparable(v.Kind(), t.(*types.Basic).Kind()))
+//@ ensures imp(v.Kind() == 25, result == (t.(*types.Basic).Kind() == 18))
+
+//@ func ComparableTo
+//@ prop C05
+//@ requires pkg != nil && varg != nil && targ != nil && varg.Type != nil && targ.Type != nil && typeis(varg.Type, *types.Basic) && typeis(targ.Type, *types.Basic) && pkg.implicitCast == nil
+//@ requires ValidBasic(varg.Type) && ValidBasic(targ.Type) && OperandWfFor(varg.Type, varg) && OperandWfFor(targ.Type, targ)
+//@ requires imp(varg.Type.(*types.Basic).Kind() == 22, varg.CVal != nil) && imp(targ.Type.(*types.Basic).Kind() == 22, targ.CVal != nil)
+//@ requires varg.Type.(*types.Basic).Kind() != 25 && targ.Type.(*types.Basic).Kind() != 25
+//@ assigns varg.Val, varg.Type, targ.Val, targ.Type
+//@ ensures result == old(GoComparableBasic(varg.Type.(*types.Basic).Kind(), targ.Type.(*types.Basic).Kind(), varg, targ))
